@@ -214,7 +214,7 @@ func distinct(ids []int) []int {
 func regsCoq(ids []int, rs []RegSnap) string {
 	s := make([]string, len(ids))
 	for i := range ids {
-		s[i] = fmt.Sprintf("(%d, %s)", ids[i], coqReg(rs[i]))
+		s[i] = fmt.Sprintf("(%d%%nat, %s)", ids[i], coqReg(rs[i]))
 	}
 	return List(s)
 }
